@@ -824,14 +824,12 @@ func oracleJSON(c *Ctx, id int, body, impl string) {
 	o := parseOutcome(impl)
 	c.Stats.OracleEvals++
 	fail := func(scope, what string) {
-		// main.go cuts the recorded op at 2000 characters: record the short form (split + request bytes; Exec and this
-		// oracle need nothing else) when the full line would be cut in the middle
+		// main.go keeps recorded ops up to 200000 characters: the full line (needed by the model on replay) fits unless the
+		// request itself is huge; then the short form (split + request bytes) still replays implementation and oracle
 		op := body
-		if len(op) > 1900 {
+		if len(op) > 190000 {
 			op = first + " x" + hex.EncodeToString(raw)
-			if len(op) > 1900 {
-				what += " [request too long for the replay record; re-run with the same seed]"
-			}
+			what += " [line too long for the replay record: short form recorded, the model side of a replay will not parse it]"
 		}
 		c.OracleFail(id, scope, what, op)
 	}
@@ -1534,7 +1532,7 @@ func runBinary(c *Ctx, exe string, id int, raw []byte, body, impl string, pl *js
 		}
 	}
 	toks := docTokens(out.Bytes())
-	if len(body) > 1900 {
+	if len(body) > 190000 {
 		body = "1 x" + hex.EncodeToString(raw)
 	}
 	switch {
